@@ -19,6 +19,7 @@ def sorted_strict(l):
     return all(a < b for a, b in zip(l, l[1:]))
 
 
+TWO_COL_LAYOUTS = []    # (nx, ny, spacing, gate_spacing, zone x coordinates, zone y coordinates) of every two-column layout used
 LIB_CASES = []          # calls of the modelled library kernels: (kind, Coq term of the model call, Coq term of the implementation's verdict, label)
 COQ_CASES = []          # (traps, occupancy, paths) as Coq text, expected show_sim text, label
 
@@ -198,6 +199,7 @@ def rearrange_cases(ctx):
     for nx, ny, s, g in sizes:
         S = two_col_zone.get_spec(nx, ny, s, g)
         zone = S.layout.static_traps["traps"]
+        TWO_COL_LAYOUTS.append((nx, ny, s, g, list(zone.x_positions), list(zone.y_positions)))
         vx, ix = index_lists(2 * nx, 2, ctx.rng, ctx.quick)
         vy, iy = index_lists(ny, 2, ctx.rng, ctx.quick)
         combos = [(sx, sy, dx, dy) for sx, dx in itertools.product(vx, vx) for sy, dy in itertools.product(vy, vy)]
@@ -484,6 +486,26 @@ def kernel_models(ctx):
     ctx.correspondence("on layouts where parking_ok holds (evaluated in Coq), every rearrange call meeting the documented preconditions is accepted with "
                        "pairwise different parking coordinates, as theorem C08_rearrange_documented_call_is_accepted says", n_doc, doc_bad)
     ctx.count("documented rearrange calls on layouts where parking is possible (theorem instances observed)", n_doc)
+    # the zone coordinates handed to the kernel model are those of the builder model (Model/Builders.v), and parking_ok is what
+    # theorem C08_rearrange_on_every_two_column_layout predicts from pitch and gate spacing
+    rows = [f"({cnat(nx)}, {cnat(ny)}, {q(sp)}, {q(g)}, {clist([q(v) for v in zx])}, {clist([q(v) for v in zy])})" for nx, ny, sp, g, zx, zy in TWO_COL_LAYOUTS]
+    body = ("From BS Require Import Core.Show Core.Base Core.GridQ Model.Arch Model.Builders Model.Aod Model.LibMoves.\n"
+            "Definition row (c : nat * nat * Q * Q * list Q * list Q) : string :=\n"
+            "  match c with (nx, ny, s, g, zx, zy) =>\n"
+            "    let t := two_col_traps nx ny s g in\n"
+            "    (show_bool (qlist_qeqb (xpos t) zx && qlist_qeqb (ypos t) zy) ++ show_bool (parking_ok zx zy))%string end.\n"
+            "Eval vm_compute in (lines (map row " + clist(rows) + ")).")
+    ok, vals, log = coqrun.eval_lines(ctx.bdir, "layouts", body)
+    bad = []
+    if not ok or len(vals) != 1 or len(vals[0]) != len(rows):
+        ctx.obligation("coqc layouts file evaluates", False, log[-600:])
+    else:
+        for (nx, ny, sp, g, zx, zy), line in zip(TWO_COL_LAYOUTS, vals[0]):
+            predicted = sp > 6 and g > 0
+            if line[:1] != "T" or (predicted and line[1:2] != "T"):
+                bad.append({"layout": [nx, ny, sp, g], "coordinates_agree": line[:1] == "T", "parking_ok": line[1:2] == "T", "theorem_predicts_parking_ok": predicted})
+    ctx.correspondence("two-column layouts: the real zone coordinates = xpos/ypos of Model.Builders.two_col_traps, and parking_ok holds wherever pitch > 6 "
+                       "(C08_rearrange_on_every_two_column_layout)", len(rows), bad)
 
 
 def replay(data):
